@@ -106,6 +106,17 @@ func (i *interpreter) fsOp(op, path string, mutating bool) {
 		call(i, i.curFrame, 0, m, []value{op, path})
 		fs.monitor = m
 	}
+	if i.world.delayAtFS > 0 && i.sched.cur != i.sched.main {
+		if i.world.delayAtFS--; i.world.delayAtFS == 0 {
+			// one preemption: this goroutine is held right after this call
+			// until no other goroutine can run
+			g := i.sched.cur
+			g.delayed = true
+			i.yield()
+			g.delayed = false
+			return
+		}
+	}
 	if (i.world.yieldOnRead && op == "read") || (i.world.yieldOnFS && i.sched.cur != i.sched.main) {
 		// reading file content takes long: let every other runnable goroutine
 		// run first (a second deterministic schedule, chosen per harness)
